@@ -241,6 +241,24 @@ func extractFirmware(fw string) (*fwFacts, error) {
 			return nil, ferr
 		}
 	}
+	// ListenPort must be the constant of New(): the templates (some spell the port out instead of
+	// using {{.ListenPort}}) and c.Listens agree only as long as nothing else assigns the field
+	for _, f := range fs {
+		var rerr error
+		ast.Inspect(f, func(n ast.Node) bool {
+			if a, ok := n.(*ast.AssignStmt); ok {
+				for _, lh := range a.Lhs {
+					if sel, ok := lh.(*ast.SelectorExpr); ok && sel.Sel.Name == "ListenPort" {
+						rerr = fmt.Errorf("ListenPort is assigned outside New() at %s: not the constant the template and c.Listens are built from", fset.Position(a.Pos()))
+					}
+				}
+			}
+			return true
+		})
+		if rerr != nil {
+			return nil, rerr
+		}
+	}
 	// Configure: c.Listens assignments in source order
 	if cf := pkgFunc(fs, "Configure", true); cf != nil {
 		var ferr error
@@ -408,6 +426,7 @@ func detectOrder() ([]string, error) {
 
 func genRouter() {
 	var l lines
+	var portReassigned []string
 	l.f("-- GENERATED by /verif/extract from the repository (router/*/setup.go, router/openwrt/dnsmasq.go,")
 	l.f("-- router/detect_linux.go).  Do not edit: rewritten on every check.")
 	l.f("import NV.Model.RouterBase")
@@ -416,6 +435,9 @@ func genRouter() {
 	for _, fw := range routerFirmwares {
 		ff, err := extractFirmware(fw)
 		if err != nil {
+			if strings.Contains(err.Error(), "ListenPort is assigned outside New()") {
+				portReassigned = append(portReassigned, fw)
+			}
 			fmt.Printf("FALLBACK router.%s: %v\n", fw, err)
 			l.f("def %s : FwConsts := NV.Router.Hand.%s", fw, fw)
 			if fw == "ddwrt" {
@@ -481,6 +503,9 @@ func genRouter() {
 		}
 		l.f("def detectOrder : List Bytes := [%s]  -- %q", strings.Join(xs, ", "), order)
 	}
+	l.f("/-- firmwares whose Router.ListenPort is assigned somewhere else than in New(): there the port of the")
+	l.f("template / of c.Listens is not the constant the model uses -/")
+	l.f("def portReassigned : List String := [%s]", quoteJoin(portReassigned))
 	l.f("end NV.Gen.Router")
 	writeIfChanged("Router.lean", l.b.String())
 }
